@@ -63,9 +63,14 @@ MUTATIONS = {
   ("unknown-notice-wrong-problem", NC,
    "\t\t\t\tToService:   md.ToService,\n\t\t\t\tProblem:     ProblemServiceUnknown,",
    "\t\t\t\tToService:   md.ToService,\n\t\t\t\tProblem:     ProblemExpiredInTransit,"),
-  ("closed-listener-swallows", NC,
-   "\t\tif !ok || pc.context.Err() != nil {\n\t\t\ts.listenerLock.RUnlock()\n\t\t\tverifhook.Emit(s.vn, \"dp_unknown\"",
-   "\t\tif ok && pc.context.Err() != nil {\n\t\t\ts.listenerLock.RUnlock()\n\n\t\t\treturn nil\n\t\t}\n\t\tif !ok {\n\t\t\ts.listenerLock.RUnlock()\n\t\t\tverifhook.Emit(s.vn, \"dp_unknown\""),
+  # two edits: Close() cancels before it takes the registry lock, and a cancelled-but-still-registered listener swallows
+  # datagrams without notice (the unchanged code answers them 'service unknown')
+  ("closing-listener-swallows", [
+     (NC, "\t\tif !ok || pc.context.Err() != nil {\n\t\t\ts.listenerLock.RUnlock()\n\t\t\tverifhook.Emit(s.vn, \"dp_unknown\"",
+          "\t\tif ok && pc.context.Err() != nil {\n\t\t\ts.listenerLock.RUnlock()\n\n\t\t\treturn nil\n\t\t}\n\t\tif !ok {\n\t\t\ts.listenerLock.RUnlock()\n\t\t\tverifhook.Emit(s.vn, \"dp_unknown\""),
+     (PCN, "func (pc *PacketConn) Close() error {\n\tpc.s.GetListenerLock().Lock()",
+           "func (pc *PacketConn) Close() error {\n\tif pc.cancel != nil {\n\t\tpc.cancel()\n\t}\n\ttime.Sleep(200 * time.Microsecond)\n\tpc.s.GetListenerLock().Lock()"),
+   ], None, None),
  ],
 }
 
@@ -181,14 +186,17 @@ def main():
         for name, path, old, new in MUTATIONS[pid]:
             if (only and name != only) or name in skip:
                 continue
-            src = open(os.path.join(REPO, path)).read()
-            if src.count(old) != 1:
-                results.append((pid, name, "NOT-APPLICABLE", "pattern found %d times" % src.count(old)))
+            edits = path if isinstance(path, list) else [(path, old, new)]
+            bad = [(pth, open(os.path.join(REPO, pth)).read().count(o)) for pth, o, _ in edits if open(os.path.join(REPO, pth)).read().count(o) != 1]
+            if bad:
+                results.append((pid, name, "NOT-APPLICABLE", "pattern count %s" % bad))
                 print(results[-1], flush=True)
                 continue
             # restore every file from /repo, then apply this one mutation
             sh(["rsync", "-a", "--delete", "--exclude", ".git", REPO + "/", SCRATCH + "/repo/"])
-            open(os.path.join(SCRATCH, "repo", path), "w").write(src.replace(old, new))
+            for pth, o, nw in edits:
+                src = open(os.path.join(SCRATCH, "repo", pth)).read()
+                open(os.path.join(SCRATCH, "repo", pth), "w").write(src.replace(o, nw))
             b = sh(["go", "build", "-tags", "verif", "./pkg/..."], cwd=SCRATCH + "/repo", env=env)
             if b.returncode != 0:
                 results.append((pid, name, "DOES-NOT-COMPILE", b.stdout[-300:]))
